@@ -998,3 +998,410 @@ func validatorRefusesOnlyOnFixedAttributes(c *Ctx, r *Report, rule string) {
 	}
 	r.Floor(rule, "conditions in the merge validation", nconds, 3)
 }
+
+// decodeReadsNoProcessState: the functions reachable from the decoders read no first-party package-level variable
+// that can change while the process runs: a variable of map, slice, channel, pointer or function type, or any
+// variable that is assigned, indexed into, deleted from or has its address taken outside its declaration.
+func decodeReadsNoProcessState(c *Ctx, r *Report, rule string) {
+	p := c.P
+	// package-level variables that change
+	mutable := map[*types.Var]string{}
+	isPkgVar := func(o types.Object) *types.Var {
+		v, ok := o.(*types.Var)
+		if !ok || v.IsField() || v.Pkg() == nil || v.Parent() != v.Pkg().Scope() || !p.firstParty(v.Pkg()) {
+			return nil
+		}
+		return v
+	}
+	for _, fn := range p.Fns {
+		if fn.Orig != nil || fn.Body == nil || strings.HasSuffix(fn.Pkg.PkgPath, "/test") {
+			continue
+		}
+		fn := fn
+		ast.Inspect(fn.Body, func(n ast.Node) bool {
+			mark := func(e ast.Expr, how string) {
+				e = ast.Unparen(e)
+				for {
+					switch x := e.(type) {
+					case *ast.IndexExpr:
+						e = ast.Unparen(x.X)
+						continue
+					case *ast.SelectorExpr:
+						if _, isPkg := p.ObjOf(fn, x.Sel).(*types.Var); isPkg && isPkgVar(p.ObjOf(fn, x.Sel)) != nil {
+							e = x.Sel
+							continue
+						}
+						e = ast.Unparen(x.X)
+						continue
+					case *ast.StarExpr:
+						e = ast.Unparen(x.X)
+						continue
+					}
+					break
+				}
+				if id, ok := e.(*ast.Ident); ok {
+					if v := isPkgVar(p.ObjOf(fn, id)); v != nil && mutable[v] == "" {
+						mutable[v] = how + " in " + fn.Name
+					}
+				}
+			}
+			switch x := n.(type) {
+			case *ast.AssignStmt:
+				for _, l := range x.Lhs {
+					mark(l, "assigned")
+				}
+			case *ast.IncDecStmt:
+				mark(x.X, "changed")
+			case *ast.UnaryExpr:
+				if x.Op == token.AND {
+					mark(x.X, "address taken")
+				}
+			case *ast.CallExpr:
+				if p.Builtin(fn, x) == "delete" && len(x.Args) > 0 {
+					mark(x.Args[0], "deleted from")
+				}
+			}
+			return true
+		})
+	}
+	scope := decodeScope(c)
+	var fns []*Fn
+	for fn := range scope {
+		fns = append(fns, fn)
+	}
+	sort.Slice(fns, func(i, j int) bool { return fns[i].Name < fns[j].Name })
+	nread := 0
+	for _, fn := range fns {
+		if fn.Body == nil {
+			continue
+		}
+		seen := map[*types.Var]bool{}
+		walkNoLit(fn.Body, func(n ast.Node) bool {
+			id, ok := n.(*ast.Ident)
+			if !ok {
+				return true
+			}
+			v := isPkgVar(p.ObjOf(fn, id))
+			if v == nil || seen[v] {
+				return true
+			}
+			seen[v] = true
+			nread++
+			why := mutable[v]
+			if why == "" {
+				switch v.Type().Underlying().(type) {
+				case *types.Map, *types.Chan:
+					why = "a " + v.Type().String() + " (a container any code of the package can fill)"
+				}
+			}
+			r.Check(why == "", rule, r.Key(rule, fn, "package-state", v.Pkg().Name()+"."+v.Name()), id.Pos(),
+				v.Pkg().Name()+"."+v.Name()+" is never changed after its declaration",
+				fmt.Sprintf("the decode path reads %s.%s, which the process changes (%s): whether a stored entry decodes — and with it which entries a rebuilt log holds — depends on what this process did before, not on the block", v.Pkg().Name(), v.Name(), why))
+			return true
+		})
+	}
+	r.Floor(rule, "functions in the decode closure", len(fns), 8)
+	r.Tables["package_state_read_while_decoding"] = []string{fmt.Sprintf("%d package-level variables read", nread)}
+}
+
+// entryFieldReader: which of the named fields of the in-memory entry a first-party function reads, directly or
+// through first-party callees and the entry's own methods (bounded depth).
+type entryFieldReader struct {
+	p      *Prog
+	fields map[string]bool
+	memo   map[*Fn]map[string]bool
+}
+
+func (er *entryFieldReader) isEntry(t types.Type) bool {
+	if t == nil {
+		return false
+	}
+	if pt, ok := t.Underlying().(*types.Pointer); ok {
+		t = pt.Elem()
+	}
+	nt := namedOf(t)
+	return nt != nil && (nt == er.p.Named("entry", "Entry") || nt == er.p.Named("iface", "IPFSLogEntry"))
+}
+
+func (er *entryFieldReader) reads(fn *Fn, depth int) map[string]bool {
+	p := er.p
+	if m, ok := er.memo[fn]; ok {
+		return m
+	}
+	out := map[string]bool{}
+	er.memo[fn] = out
+	if fn == nil || fn.Body == nil || depth > 3 {
+		return out
+	}
+	entT := p.Named("entry", "Entry")
+	ast.Inspect(fn.Body, func(n ast.Node) bool {
+		switch x := n.(type) {
+		case *ast.SelectorExpr:
+			if v, _ := p.FieldSel(fn, x); v != nil && er.fields[v.Name()] {
+				if st, ok := entT.Underlying().(*types.Struct); ok {
+					for i := 0; i < st.NumFields(); i++ {
+						if st.Field(i) == v {
+							out[v.Name()] = true
+						}
+					}
+				}
+			}
+		case *ast.CallExpr:
+			if cf := p.Callee(fn, x); cf != nil && p.firstParty(cf.Pkg()) {
+				callee := p.ByObj[cf]
+				if callee == nil {
+					if sig, ok := cf.Type().(*types.Signature); ok && sig.Recv() != nil && er.isEntry(sig.Recv().Type()) {
+						callee = p.FuncOpt("entry", "Entry", cf.Name())
+					}
+				}
+				if callee != nil {
+					for f := range er.reads(callee, depth+1) {
+						out[f] = true
+					}
+				}
+			}
+		}
+		return true
+	})
+	return out
+}
+
+// workerKeepsWhatItFetched: the fetch worker gives up a fetched entry only because the fetch failed or by its
+// own bookkeeping (clock, hash, limit): no condition in the worker calls an entry method that reads the payload
+// or the additional data — whatever Append wrote must load again, an empty or binary payload included.
+func workerKeepsWhatItFetched(c *Ctx, r *Report, rule string) {
+	p := c.P
+	er := &entryFieldReader{p: p, fields: map[string]bool{"Payload": true, "AdditionalData": true}, memo: map[*Fn]map[string]bool{}}
+	pq := p.Func("entry", "Fetcher", "processQueue")
+	fns := map[*Fn]bool{}
+	for _, f := range AllFnsUnder(pq) {
+		fns[f] = true
+	}
+	// methods of the fetcher the worker hands the entry to
+	for changed, round := true, 0; changed && round < 3; round++ {
+		changed = false
+		for fn := range fns {
+			walkNoLit(fn.Body, func(n ast.Node) bool {
+				call, ok := n.(*ast.CallExpr)
+				if !ok {
+					return true
+				}
+				cf := p.Callee(fn, call)
+				if cf == nil {
+					return true
+				}
+				callee := p.ByObj[cf]
+				if callee == nil || callee.Pkg.PkgPath != pq.Pkg.PkgPath || fns[callee] || callee.Obj == nil {
+					return true
+				}
+				sig := cf.Type().(*types.Signature)
+				if sig.Recv() == nil || namedOf(sig.Recv().Type()) != p.Named("entry", "Fetcher") {
+					return true
+				}
+				// every method of the fetcher the worker's code reaches (the worker itself may be one)
+				for _, sub := range AllFnsUnder(callee) {
+					fns[sub] = true
+				}
+				changed = true
+				return true
+			})
+		}
+	}
+	var names []string
+	byName := map[string]*Fn{}
+	for fn := range fns {
+		names = append(names, fn.Name)
+		byName[fn.Name] = fn
+	}
+	sort.Strings(names)
+	nconds := 0
+	for _, nm := range names {
+		fn := byName[nm]
+		walkNoLit(fn.Body, func(n ast.Node) bool {
+			var conds []ast.Expr
+			switch x := n.(type) {
+			case *ast.IfStmt:
+				conds = []ast.Expr{x.Cond}
+			case *ast.SwitchStmt:
+				if x.Tag != nil {
+					conds = append(conds, x.Tag)
+				}
+				for _, cc := range x.Body.List {
+					conds = append(conds, cc.(*ast.CaseClause).List...)
+				}
+			default:
+				return true
+			}
+			for _, cnd := range conds {
+				nconds++
+				bad, via := "", ""
+				ast.Inspect(cnd, func(m ast.Node) bool {
+					call, ok := m.(*ast.CallExpr)
+					if !ok || bad != "" {
+						return true
+					}
+					cf := p.Callee(fn, call)
+					if cf == nil || !p.firstParty(cf.Pkg()) {
+						return true
+					}
+					sig, ok := cf.Type().(*types.Signature)
+					if !ok || sig.Recv() == nil || !er.isEntry(sig.Recv().Type()) {
+						return true
+					}
+					if m2 := p.FuncOpt("entry", "Entry", cf.Name()); m2 != nil {
+						var fs []string
+						for f := range er.reads(m2, 0) {
+							fs = append(fs, f)
+						}
+						sort.Strings(fs)
+						if len(fs) > 0 {
+							bad, via = fs[0], cf.Name()
+						}
+					}
+					return true
+				})
+				r.Check(bad == "", rule, r.Key(rule, fn, "condition", ""), cnd.Pos(),
+					"the condition reads neither the payload nor the additional data of a fetched entry",
+					fmt.Sprintf("the fetch worker branches on `%s`, which reads the fetched entry's %s through %s: an entry Append wrote (an empty payload is appendable) is given up like a failed fetch, and with it everything only reachable through it — the rebuilt log silently lacks entries", types.ExprString(cnd), bad, via))
+			}
+			return true
+		})
+	}
+	r.Floor(rule, "conditions in the fetch worker", nconds, 1)
+}
+
+// snapshotEntriesComeFromTheWalk: a loader that takes the heads of the rebuilt log from the manifest (or the JSON
+// head list) hands on only entries its walk from those heads returned: an entry added from elsewhere (a list the
+// caller holds) is referenced by nothing in the rebuilt log and is not one of its heads.
+func snapshotEntriesComeFromTheWalk(c *Ctx, r *Report, rule string) {
+	p := c.P
+	snapValues := p.Field("iface", "Snapshot", "Values")
+	isEntrySlice := func(t types.Type) bool {
+		sl, ok := t.Underlying().(*types.Slice)
+		return ok && isNamed(sl.Elem(), p.pkgPath("iface"), "IPFSLogEntry")
+	}
+	n := 0
+	for _, name := range []string{"fromMultihash", "fromJSON"} {
+		fn := p.Func("", "", name)
+		sf := p.SSAFunc(fn)
+		allInstrs(sf, false, func(ins ssa.Instruction) {
+			st, ok := ins.(*ssa.Store)
+			if !ok {
+				return
+			}
+			if f, _ := fieldOf(st.Addr); f != snapValues {
+				return
+			}
+			n++
+			bad := ""
+			var badPos token.Pos
+			// the walk's result is a source: what goes into the fetcher (its options, the caller's lists it is told
+			// to leave out) is not part of what comes out
+			stopAtFetch := func(x ssa.Value) bool {
+				if call, ok := x.(*ssa.Call); ok {
+					if cal := call.Call.StaticCallee(); cal != nil && cal.Pkg != nil && cal.Pkg.Pkg.Path() == p.pkgPath("entry") && isEntrySlice(call.Type()) {
+						return false
+					}
+				}
+				return true
+			}
+			for x := range backSlice(st.Val, stopAtFetch) {
+				if !isEntrySlice(x.Type()) || x.Parent() != sf {
+					continue
+				}
+				switch y := x.(type) {
+				case *ssa.Parameter:
+					bad, badPos = "the parameter "+y.Name(), st.Pos()
+				case *ssa.UnOp:
+					if y.Op == token.MUL {
+						if f, _ := fieldOf(y.X); f != nil {
+							bad, badPos = "the caller's "+f.Name()+" list", y.Pos()
+						}
+					}
+				}
+			}
+			pos := st.Pos()
+			if bad != "" && badPos.IsValid() {
+				pos = badPos
+			}
+			r.Check(bad == "", rule, r.Key(rule, fn, "snapshot-values", ""), pos,
+				"the entries handed on all come from the walk from the manifest's heads",
+				fmt.Sprintf("%s adds %s to the entries it hands on while the heads are taken from the manifest: an entry outside the history of those heads is in the rebuilt log, referenced by nothing and not a head — and it stays so through later appends and merges", name, bad))
+		})
+	}
+	r.Floor(rule, "snapshot entry lists built by loaders that take the heads from the manifest", n, 2)
+}
+
+// channelsClosedOnce: a close of a channel is not reachable twice — not in a loop over which the channel lives,
+// not in a function literal that several goroutines or several calls can run (a recorder called by every
+// failing validator), unless it runs under a sync.Once.
+func channelsClosedOnce(c *Ctx, r *Report, rule string) {
+	p := c.P
+	n := 0
+	for _, fn := range p.Fns {
+		if fn.Orig != nil || fn.Body == nil || !p.firstParty(fn.Pkg.Types) || strings.HasSuffix(fn.Pkg.PkgPath, "/test") {
+			continue
+		}
+		fn := fn
+		walkNoLit(fn.Body, func(nd ast.Node) bool {
+			call, ok := nd.(*ast.CallExpr)
+			if !ok || p.Builtin(fn, call) != "close" || len(call.Args) != 1 {
+				return true
+			}
+			n++
+			root, _, okp := p.PathKey(fn, call.Args[0])
+			chv, _ := root.(*types.Var)
+			bad := ""
+			// (a) in a loop the channel outlives
+			for _, l := range enclosingLoops(p, fn, call) {
+				if okp && chv != nil && !(chv.Pos() >= l.Pos() && chv.Pos() <= l.End()) {
+					// leaving the loop (and the function) right after the close is the usual shape
+					leaves := false
+					for cur := p.ParentIn(fn, call); cur != nil && cur != ast.Node(l); cur = p.ParentIn(fn, cur) {
+						if blk, ok := cur.(*ast.BlockStmt); ok {
+							for i, st := range blk.List {
+								if es, ok := st.(*ast.ExprStmt); ok && es.X == ast.Expr(call) && i+1 < len(blk.List) {
+									switch nx := blk.List[i+1].(type) {
+									case *ast.ReturnStmt:
+										leaves = true
+									case *ast.BranchStmt:
+										leaves = nx.Tok == token.BREAK || nx.Tok == token.GOTO
+									}
+								}
+							}
+						}
+					}
+					if !leaves {
+						bad = "inside a loop that the channel outlives"
+					}
+				}
+			}
+			// (b) in a literal that can run more than once: a goroutine started in a loop, or a local closure
+			// (called from wherever its variable is visible) — unless handed to a sync.Once
+			if fn.Lit != nil && okp && chv != nil && !(chv.Pos() >= fn.Lit.Pos() && chv.Pos() <= fn.Lit.End()) {
+				once := false
+				if pc, ok := p.parent[ast.Node(fn.Lit)].(*ast.CallExpr); ok {
+					if cf := p.Callee(fn.Parent, pc); cf != nil && isFunc(cf, "sync", "Once", "Do") {
+						once = true
+					}
+				}
+				if !once {
+					switch par := p.parent[ast.Node(fn.Lit)].(type) {
+					case *ast.AssignStmt, *ast.ValueSpec:
+						_ = par
+						bad = "inside a local closure every caller of which closes the same channel"
+					case *ast.CallExpr:
+						if g, ok := p.parent[par].(*ast.GoStmt); ok && len(enclosingLoops(p, fn.Parent, g)) > 0 {
+							bad = "inside a goroutine started once per loop iteration"
+						}
+					}
+				}
+			}
+			r.Check(bad == "", rule, r.Key(rule, fn, "close", types.ExprString(call.Args[0])), call.Pos(),
+				"the channel is closed at one place that runs once",
+				fmt.Sprintf("close(%s) is %s: the second close panics (`close of closed channel`), on a goroutine nothing recovers", types.ExprString(call.Args[0]), bad))
+			return true
+		})
+	}
+	r.Floor(rule, "channel closes examined", n, 1)
+}
